@@ -9,7 +9,7 @@ import nodecheck
 from nodecheck import Obs, kv, parse_msg, parse_cfg
 
 PROP = "C13"
-MODULES = ["DV.Properties.C13", "DV.Properties.C13Hist", "DV.Properties.C13Sock", "DV.Properties.ConfigTie", "DV.Properties.C13Ready"]
+MODULES = ["DV.Properties.C13", "DV.Properties.C13Hist", "DV.Properties.C13Sock", "DV.Properties.ConfigTie", "DV.Properties.C13Ready", "DV.Properties.C13Remove"]
 KEEP = {"CONN": ["state", "dir", "name", "ident", "live"], "PEER": ["conn", "reason", "disc"], "APPS": ["ready"],
         "SIZE": ["conns", "socks", "sockPeers", "half"], "RES": ["socketsOpen"]}
 
